@@ -1,0 +1,86 @@
+//go:build verif
+
+package httpcaddyfile
+
+import (
+	"encoding/json"
+	"slices"
+	"strconv"
+
+	"github.com/caddyserver/caddy/v2"
+	"github.com/caddyserver/caddy/v2/modules/caddyhttp"
+)
+
+// Verification hooks (build tag "verif" only, add-only): they expose the
+// unexported route sorter and the directive order table to the correspondence
+// harness in /verif (property C16). Nothing here is compiled into a normal build.
+
+// verifPristineOrder is a private copy of the default directive order taken at
+// package initialisation, before any "order" global option could touch it.
+var verifPristineOrder = slices.Clone(defaultDirectiveOrder)
+
+// VerifDefaultDirectiveOrder returns a copy of the directive order table as it
+// was when the package was initialised.
+func VerifDefaultDirectiveOrder() []string { return slices.Clone(verifPristineOrder) }
+
+// VerifDirectiveOrder returns a copy of the directive order currently in effect
+// (process-global; changed by the "order" global option).
+func VerifDirectiveOrder() []string { return slices.Clone(directiveOrder) }
+
+// VerifResetDirectiveOrder puts the two package-level order variables back into
+// the state of a fresh process (directiveOrder aliases defaultDirectiveOrder).
+func VerifResetDirectiveOrder() {
+	defaultDirectiveOrder = slices.Clone(verifPristineOrder)
+	directiveOrder = defaultDirectiveOrder
+}
+
+// VerifSortItem is one route-class config value as sortRoutes sees it.
+type VerifSortItem struct {
+	Directive   string   // as written (normalizeDirectiveName is applied by the hook)
+	NotRoute    bool     // Value is not a caddyhttp.Route
+	MatcherSets int      // number of matcher sets of the route
+	Paths       []string // "path" matcher of the first matcher set (nil: no path matcher)
+}
+
+type verifNotRoute int
+
+// VerifSortRoutes runs the real sortRoutes on the described values and returns
+// the original indices in their sorted order. If order is non-nil it is the
+// directive order in effect during the call.
+func VerifSortRoutes(order []string, items []VerifSortItem) []int {
+	if order != nil {
+		saved := directiveOrder
+		directiveOrder = slices.Clone(order)
+		defer func() { directiveOrder = saved }()
+	}
+	vals := make([]ConfigValue, len(items))
+	for i, it := range items {
+		cv := ConfigValue{Class: "route", directive: normalizeDirectiveName(it.Directive)}
+		if it.NotRoute {
+			cv.Value = verifNotRoute(i)
+		} else {
+			r := caddyhttp.Route{Group: strconv.Itoa(i)}
+			for k := 0; k < it.MatcherSets; k++ {
+				ms := caddy.ModuleMap{}
+				if k == 0 && it.Paths != nil {
+					b, _ := json.Marshal(it.Paths)
+					ms["path"] = b
+				}
+				r.MatcherSetsRaw = append(r.MatcherSetsRaw, ms)
+			}
+			cv.Value = r
+		}
+		vals[i] = cv
+	}
+	sortRoutes(vals)
+	out := make([]int, len(vals))
+	for i, v := range vals {
+		switch x := v.Value.(type) {
+		case verifNotRoute:
+			out[i] = int(x)
+		case caddyhttp.Route:
+			out[i], _ = strconv.Atoi(x.Group)
+		}
+	}
+	return out
+}
